@@ -130,7 +130,7 @@ impl std::fmt::Display for MemoryLocation {
             }
             MemoryLocation::StackOffset(offset) => {
                 if offset < &0 {
-                    write!(f, "sp_i - {}", offset.abs())
+                    write!(f, "sp_i - {}", offset.unsigned_abs())
                 } else {
                     write!(f, "sp_i + {offset}")
                 }
